@@ -1,15 +1,31 @@
 //! One module per property.
 pub mod c01;
+pub mod c02;
+pub mod c05;
 pub mod c07;
+pub mod c08;
+pub mod c14;
+pub mod c15;
+pub mod c16;
+pub mod c17;
+pub mod c18;
 
 use crate::engine::{run, Opts};
 
-pub const ALL: &[&str] = &["C01", "C07"];
+pub const ALL: &[&str] = &["C01", "C02", "C07", "C08", "C15", "C17"];
 
 pub fn dispatch(id: &str, opts: &Opts) -> i32 {
     match id {
         "C01" => run::<c01::C01>(opts),
+        "C02" => run::<c02::C02>(opts),
+        "C05" => run::<c05::C05>(opts),
         "C07" => run::<c07::C07>(opts),
+        "C08" => run::<c08::C08>(opts),
+        "C14" => run::<c14::C14>(opts),
+        "C15" => run::<c15::C15>(opts),
+        "C16" => run::<c16::C16>(opts),
+        "C17" => run::<c17::C17>(opts),
+        "C18" => run::<c18::C18>(opts),
         other => {
             eprintln!("unknown property {other}");
             2
